@@ -1345,11 +1345,27 @@ ARR_MIXED = [("cs_fb", "ds_db"), ("ds_db", "cs_fb"), ("ls_hb", "fs_fb"), ("fs_fb
              ("fs_hb", "cs_fb"), ("fs_db", "hybrid_nd"), ("ds_hb", "fixed_nd"), ("raw", "ds_db"), ("ds_db", "ls_fb")]
 
 
-def view_base_cfgs(o):
-    """every array kind once (index arguments rotate over their kinds) + the mixed operand pairs"""
+CM_QUICK = ("cm_ds_db", "cm_cs_fb", "cm_ls_hb", "cm_hs_db")
+
+
+def view_base_cfgs(o, small=False):
+    """every array kind once (index arguments rotate over their kinds) + the mixed operand pairs;
+    small: the 15 ndarray kinds, 4 column-major twins, the 5 other array kinds and every other mixed pair"""
     arrs = [a for a in o.args if a.typ == "arr"]
     n = len(ARR_KINDS) + (len(ARR_MIXED) if len(arrs) >= 2 else 0)
-    return candidates_view(o, base_only=True)[:n]
+    base = candidates_view(o, base_only=True)[:n]
+    if not small:
+        return base
+    out = []
+    for i, c in enumerate(base):
+        if i < len(ARR_KINDS):
+            k = ARR_KINDS[i]
+            if k.startswith("cm_") and k not in CM_QUICK:
+                continue
+        elif (i - len(ARR_KINDS)) % 2:
+            continue
+        out.append(c)
+    return out
 
 
 def candidates_view(o, base_only=False):
@@ -1688,10 +1704,12 @@ def make_sig(o, baked, rng):
             continue
         if a.typ == "ia":
             n = len(vs[0])
-            mx = [max(1, max(v[i] for v in vs)) + rng.choice([0, 0, 1, 2]) for i in range(n)]
+            # clipped maxima are >= 2: the library takes different type-level branches for a maximum of 1, and which branch a
+            # program takes must not depend on the seed (maxima of 1 are covered by the ls_* array kinds of unit extent)
+            mx = [max(2, max(v[i] for v in vs) + rng.choice([0, 0, 1, 2])) for i in range(n)]
             sig[a.name] = dict(n=n, mx=mx)
         elif a.typ == "is":
-            sig[a.name] = dict(mx=max(1, max(vs)) + rng.choice([0, 1, 2]))
+            sig[a.name] = dict(mx=max(2, max(vs) + rng.choice([0, 1, 2])))
         else:
             sig[a.name] = dict(S=list(vs[0]["shape"]), T=vs[0].get("T", "int"))
     return sig
@@ -1727,7 +1745,7 @@ def cfg_valid_for(o, c, baked):
     return True
 
 
-def make_group(gid, o, rng, supported_cfgs, nbaked, max_cfgs, pinned=(), dims=None, all_cfgs=False):
+def make_group(gid, o, rng, supported_cfgs, nbaked, max_cfgs, pinned=(), dims=None, all_cfgs=False, small=False):
     """draw dims and baked value sets from the seed, choose configurations from the allow-list"""
     fixed_dims = dims
     for _ in range(50):
@@ -1755,7 +1773,7 @@ def make_group(gid, o, rng, supported_cfgs, nbaked, max_cfgs, pinned=(), dims=No
     if all_cfgs:
         return Group(gid, o, dims, baked, sig, cfgs)
     if o.family == "view":
-        base = [c for c in view_base_cfgs(o) if c in cfgs]
+        base = [c for c in view_base_cfgs(o, small) if c in cfgs]
         if o.weight > 1:
             base = base[::o.weight]     # expensive operation: every weight-th array kind (deterministic)
         extra = [c for c in cfgs if c not in base and o.weight == 1]
